@@ -18,6 +18,12 @@ def forCarOfJson (j : Json) : Except String ForCar := do
   | [acc, ar, i, y, r] => return ⟨← nat acc, ← nat ar, ← nat i, ← nat y, ← nat r⟩
   | _ => throw "bad for carry"
 
+def pCarOfJson (j : Json) : Except String PCar := do
+  let a ← arr j
+  match a.toList with
+  | [acc, ar, i, y, r] => return ⟨← nat acc, ← nat ar, ← nat i, ← nat y, ← nat r⟩
+  | _ => throw "bad pre-existing carry"
+
 mutual
 partial def pstmtOfJson (j : Json) : Except String PStmt := do
   let a ← arr j
@@ -30,7 +36,9 @@ partial def pstmtOfJson (j : Json) : Except String PStmt := do
     | "pure", [d, op, args] => return .pure (← nat d) (← pureOpOfJson op) (← listOf nat args)
     | "call", [t, e] => return .call (← nat t) (← bool e)
     | "if", [c, t, e] => return .ifS (← nat c) (← pblockOfJson t) (← pblockOfJson e)
-    | "for", [lb, ub, st, iv, b] => return .forS (← nat lb) (← nat ub) (← nat st) (← nat iv) (← pblockOfJson b)
+    | "for", [lb, ub, st, iv, b] => return .forS (← nat lb) (← nat ub) (← nat st) (← nat iv) (← pblockOfJson b) []
+    | "for", [lb, ub, st, iv, b, car] =>
+        return .forS (← nat lb) (← nat ub) (← nat st) (← nat iv) (← pblockOfJson b) (← listOf pCarOfJson car)
     | t, _ => throw s!"bad pstmt {t}"
   | [] => throw "empty stmt"
 partial def pblockOfJson (j : Json) : Except String PBlock := do
@@ -94,6 +102,7 @@ def inferReport (L : LBlock) : List (String × Json) :=
   let fuel := fuelOf L
   [("infer", jList (fun p => Json.arr #[jNat p.1, stateToJson (inferL D fuel [] p.1)]) (ldefsB L)),
    ("annot", jList stateToJson (annotLB D fuel L)),
+   ("linksSound", Json.bool (soundChkB D fuel L noFacts)),
    ("nstates", jNat (ldefsB L).length)]
 
 /-- args: {"body": untraced program} -> {"woven": traced program, "infer": …, "annot": …, "wf", "nodup"} -/
@@ -102,7 +111,8 @@ def weaveH : Handler := fun j => do
   let L := weave p
   return Json.mkObj ([
     ("woven", lblockToJson L),
-    ("wf", Json.bool (wfB (eraseP p))), ("nodup", Json.bool (nodupPB p))] ++ inferReport L)
+    ("wf", Json.bool (wfB (eraseP p))), ("nodup", Json.bool (nodupPB p)),
+    ("plain", Json.bool (plainPB p)), ("bad", Json.bool (weaveBad p))] ++ inferReport L)
 
 /-- args: {"body": traced program (converted real IR)} -> {"infer": …, "annot": …} -/
 def inferH : Handler := fun j => do
